@@ -102,4 +102,20 @@ def step (ws : List Nat) (s : St) : Op → St
 
 def run (ws : List Nat) (ops : List Op) : St := ops.foldl (step ws) {}
 
+/-! ### histories in which the text is replaced -/
+
+/-- `with_string` on a resource: when it has a text (`check_mutation`), the position index and the text selections are
+thrown away; the new text gets its milestones under the resource's own configuration (`interval`, 0 = none) -/
+inductive TOp where
+  | op (o : Op)
+  | retext (ws' : List Nat) (interval : Nat)
+deriving Repr
+
+def stepT (p : List Nat × St) : TOp → List Nat × St
+  | .op o => (p.1, step p.1 p.2 o)
+  | .retext ws' i => (ws', step ws' (if p.1.isEmpty then p.2 else {}) (.milestones i))
+
+/-- a resource with the text `ws0` and nothing on it yet, through a history -/
+def runT (ws0 : List Nat) (ops : List TOp) : List Nat × St := ops.foldl stepT (ws0, {})
+
 end Stam.PI
